@@ -220,8 +220,13 @@ impl<'p> CoroutinePool<'p> {
         let timeout_time = get_timeout_time(dur);
         loop {
             _ = self.try_timeout_schedule_task(timeout_time)?;
-            if self.get_running_size() == 0 || timeout_time.saturating_sub(now()) == 0 {
+            if self.get_running_size() == 0 {
                 break;
+            }
+            if timeout_time.saturating_sub(now()) == 0 {
+                // tasks accepted earlier have not finished: do not report success
+                // (the pool stays in the stopping state, stop() may be called again)
+                return Err(Error::new(ErrorKind::TimedOut, "stop timeout !"));
             }
             #[cfg(feature = "verif")]
             if crate::verif::clock_advance(Duration::from_millis(1)) {
@@ -296,8 +301,9 @@ impl<'p> CoroutinePool<'p> {
         if self.try_take_task_result(task_id).is_some() {
             return;
         }
+        // (a cancel request for the task stays in force: giving up the result of a task that
+        // was cancelled before it started must not let it run after all)
         _ = self.no_waits.insert(task_id);
-        _ = CANCEL_TASKS.remove(&task_id);
     }
 
     /// Use the given `task_id` to obtain task results, and if no results are found,
